@@ -490,9 +490,15 @@ impl PrunePack {
         IndexPack {
             id: self.id,
             time: self.time.or(Some(time)),
-            size: None,
+            size: self.index_size(),
             blobs: self.blobs,
         }
+    }
+
+    /// The size to be saved in the index: Only needed if it cannot be computed from the blobs, i.e.
+    /// for packs listed without blobs (unindexed packs which have been marked for deletion).
+    fn index_size(&self) -> Option<u32> {
+        self.blobs.is_empty().then_some(self.size)
     }
 
     /// Convert the `PrunePack` into an `IndexPack` with the given time
@@ -504,7 +510,7 @@ impl PrunePack {
         IndexPack {
             id: self.id,
             time: Some(time),
-            size: None,
+            size: self.index_size(),
             blobs: self.blobs,
         }
     }
